@@ -98,6 +98,25 @@ let rec run_case (kind : string) (body : sexp list) : string * string =
   | "subalg" ->
       let h = List.map cop_of (args (List.nth body 1)) in
       (show_cobs (crun cstate0 h), "UNSPECIFIED")
+  | "finalize" ->
+      (* (finalize FORM hot|cold SHAPE (stims ...)): a cold input is unsubscribed, if at all, after its script *)
+      let sh = fshape_of (atom (List.nth body 1) = "hot") (List.nth body 2) in
+      let sts = List.map zstim_of (args (List.nth body 3)) in
+      let sts = if atom (List.nth body 1) = "cold"
+        then (let evs = List.filter (function ZUnsub -> false | _ -> true) sts in
+              if List.length evs < List.length sts then evs @ [ZUnsub] else evs)
+        else sts in
+      (show_segs (run_finalize_segs sh sts), "UNSPECIFIED")
+  | "finalize_race" ->
+      (* two threads, each: some other step, then its take of the cell; all interleavings *)
+      let rec inter a b = match a, b with
+        | [], l | l, [] -> [l]
+        | x :: a', y :: b' -> List.map (fun l -> x :: l) (inter a' b) @ List.map (fun l -> y :: l) (inter a b') in
+      let scheds = inter [ROther O; RTake O] [ROther (S O); RTake (S O)] in
+      let count s = List.length (List.filter (fun x -> x <> None) (rrun true s)) in
+      let counts = List.sort_uniq compare (List.map count scheds) in
+      let r = "counts=" ^ String.concat "," (List.map string_of_int counts) ^ " early=0" in
+      (r, r)
   | k -> failwith ("unknown case kind " ^ k)
 
 let gev_of (s : sexp) : gev =
@@ -192,6 +211,22 @@ let oracle (kind : string) (body : sexp list) (impl : string) : string option =
        | S (S O) -> Some "reject:C17 a leaf appended to an unsubscribed composite (or held by an unsubscribed subscription) was left running"
        | S (S (S O)) -> Some "known:reopened is_closed() answered true and later false (a composite that was never unsubscribed re-opened by append)"
        | _ -> Some "reject:C17 is_closed() answered true and later false")
+  | "finalize" ->
+      if String.length impl >= 5 && String.sub impl 0 5 = "PANIC" then Some "reject:panic" else
+      let sh = fshape_of (atom (List.nth body 1) = "hot") (List.nth body 2) in
+      let sts = List.map zstim_of (args (List.nth body 3)) in
+      let sts = if atom (List.nth body 1) = "cold"
+        then (let evs = List.filter (function ZUnsub -> false | _ -> true) sts in
+              if List.length evs < List.length sts then evs @ [ZUnsub] else evs)
+        else sts in
+      let segs = segs_of impl in
+      (match fin_ok false sh fspec0 sts segs with
+       | O -> Some "ok"
+       | _ when fin_ok true sh fspec0 sts segs = O ->
+           Some "known:downstream-finished finalize followed by take(n) on a subject: the subject's terminal after the take completed is not followed by the callback"
+       | S O -> Some "reject:C15 the finalize callback did not run right after the first terminal / unsubscription"
+       | S (S O) -> Some "reject:C15 the finalize callback ran before any terminal or unsubscription, or a second time"
+       | _ -> Some "reject:unparsable")
   | _ -> None
 
 let () =
